@@ -21,14 +21,14 @@ func genParams(rt *rapid.T, seedTag string) sim.Params {
 	p := sim.DefaultParams()
 	p.Seed = "c15-" + seedTag
 	u := hist.NewU(rt)
-	nv := u.Range(1, 7, "nvals")
+	nw := u.Range(1, 7, "nwit")
+	nv := u.Range(nw, 7, "nvals")
 	p.ValPower = nil
 	for i := 0; i < nv; i++ {
 		p.ValPower = append(p.ValPower, p.MinSelfDeleg+int64(i))
 	}
 	p.ExtraVals = 1
 	p.TopCount = 8
-	nw := u.Range(1, nv, "nwit")
 	// witnesses: nw distinct validator indexes
 	perm := rapid.Permutation(seq(nv)).Draw(rt, "witperm")
 	p.Witnesses = append([]int{}, perm[:nw]...)
@@ -192,7 +192,7 @@ func (g *gen) dup() txgen.Tx {
 			variant = "trailing-bytes"
 		}
 	}
-	if (s.Kind == "ETH_REDEEM" || s.Kind == "ERC20_REDEEM") && variant == "trailing-bytes" && g.excluded(s.Kind+":trailing-bytes") {
+	if (s.Kind == "ETH_REDEEM" || s.Kind == "ERC20_REDEEM") && variant == "trailing-bytes" && g.excluded("ETH_REDEEM:trailing-bytes") {
 		variant = "new-tx"
 	}
 	ui := s.Owner
@@ -279,7 +279,17 @@ func (g *gen) report() txgen.Tx {
 		pend = pending[g.rng(0, len(pending)-1, "pi")]
 		name = pend.Name
 	case len(live) > 0 && g.pct(92, "live"):
-		t = live[len(live)-1-g.rng(0, min(2, len(live)-1), "ti")]
+		t = live[g.rng(0, len(live)-1, "ti")]
+		if g.pct(65, "closest") {
+			// concentrate on the tracker with most votes so that large witness sets reach a threshold
+			for _, x := range live {
+				y0, n0 := t.counts()
+				y1, n1 := x.counts()
+				if y1+n1 > y0+n0 {
+					t = x
+				}
+			}
+		}
 		name = t.Name
 	case len(g.subs) > 0:
 		s := g.subs[g.rng(0, len(g.subs)-1, "si")]
@@ -389,15 +399,25 @@ func (g *gen) report() txgen.Tx {
 
 func (g *gen) draw() txgen.Tx {
 	k := g.rng(0, 99, "action")
+	// few trackers at a time: votes must accumulate on one tracker to reach the threshold of a large witness set
+	undecided := 0
+	for _, t := range g.m.trk {
+		if t.Where == "ongoing" && t.Decided == "" {
+			undecided++
+		}
+	}
+	if undecided >= 3 && k < 24 && g.pct(75, "enough") {
+		k = 50
+	}
 	var tx txgen.Tx
 	switch {
-	case k < 14:
+	case k < 12:
 		tx = g.lock()
-	case k < 24:
+	case k < 20:
 		tx = g.redeem()
-	case k < 34:
+	case k < 29:
 		tx = g.dup()
-	case k < 39:
+	case k < 33:
 		tx = g.send()
 	default:
 		if len(g.subs) == 0 {
